@@ -20,6 +20,10 @@ pub struct Avoid {
     pub if_direct: bool,
     /// directive prologue other than a single leading 'use strict'
     pub multi_directive: bool,
+    /// optional call `?.()` whose callee is a parenthesised member expression
+    pub opt_call_paren_callee: bool,
+    /// with the plus operator disabled: a bare `+` expression as operand of an instrumented call / template
+    pub plain_sum_operand: bool,
 }
 
 #[derive(Clone, Debug)]
@@ -40,6 +44,7 @@ pub struct GenOpts {
     /// plant identifiers with this reserved prefix (C06 refusal mode)
     pub reserved_prefix: Option<String>,
     pub file_comment_url: bool,
+    pub plus_enabled: bool,
 }
 
 impl GenOpts {
@@ -56,6 +61,7 @@ impl GenOpts {
             max_depth: 4,
             reserved_prefix: None,
             file_comment_url: false,
+            plus_enabled: true,
         }
     }
 }
@@ -441,6 +447,10 @@ impl<'t, 'a> Gen<'t, 'a> {
         let l = self.guard_literal_sum(l);
         // a right operand that is itself a sum needs parentheses anyway (printer adds them), guard it too
         let r = self.guard_literal_sum(r);
+        if !self.o.plus_enabled && self.o.avoid.plain_sum_operand {
+            self.redirect("plain_sum_operand");
+            return E::Paren(E::Bin("+", l.bx(), r.bx()).bx());
+        }
         E::Bin("+", l.bx(), r.bx())
     }
 
@@ -574,6 +584,12 @@ impl<'t, 'a> Gen<'t, 'a> {
             }
             // a?.(x).m(args)
             4 => {
+                let base = if self.o.avoid.opt_call_paren_callee && matches!(base, E::Paren(_)) {
+                    self.redirect("opt_call_paren_callee");
+                    self.ident()
+                } else {
+                    base
+                };
                 let a2 = self.args(d.min(1));
                 E::Call {
                     callee: E::Member { obj: E::Call { callee: base.bx(), args: a2, optional: true }.bx(), prop: m, optional: false }.bx(),
@@ -1489,4 +1505,8 @@ impl<'t, 'a> Gen<'t, 'a> {
 pub fn gen_program(tape: &[u8], opts: &GenOpts) -> Prog {
     let mut t = Tape::new(tape);
     Gen::new(&mut t, opts).program()
+}
+
+pub fn gen_program_t(t: &mut Tape, opts: &GenOpts) -> Prog {
+    Gen::new(t, opts).program()
 }
